@@ -58,6 +58,7 @@ KNOWN = [
     ("psp", "psp/instancesWith2items/1", "13"), ("psp", "psp/instancesWith2items/2", "54"), ("psp", "psp/instancesWith2items/3", "46"),
     ("psp", "psp/instancesWith2items/4", "2"), ("psp", "psp/instancesWith2items/5", "78"), ("psp", "psp/instancesWith2items/6", "52"),
 ]
+DENSITY = {"knapsack": 3}      # runs of this binary take milliseconds: three times as many generated instances
 KNOWN_THOROUGH = [("talentsched", "talentsched/concert", "111")]
 GOLOMB_KNOWN = {1: 0, 2: 1, 3: 3, 4: 6, 5: 11, 6: 17, 7: 25, 8: 34}
 
@@ -261,7 +262,7 @@ def check_c16(tier):
     dist = {}
     for ex in exgen.EXAMPLES:
         d = workfile("c16_%s" % ex); os.makedirs(d, exist_ok=True)
-        insts = exgen.generate(ex, rng.fork(), n_random)
+        insts = exgen.generate(ex, rng.fork(), n_random * DENSITY.get(ex, 1))
         if ex == "golomb":
             insts = exgen.gen_golomb_all(gol_max)
         items = [(i, True) for i in exgen.corpus(ex)] + [(i, True) for i in insts]
